@@ -1790,8 +1790,9 @@ func frameOfValue(in ssa.Instruction, i, j int) bool {
 // walkLoopExits: see walkPathsP (set by a rule around its walk).
 var walkLoopExits bool
 
-// forceLoopExits: experiment switch (XLOOPEXITS=1): every walk passes loop heads a second time.
-var forceLoopExits = os.Getenv("XLOOPEXITS") == "1"
+// forceLoopExits: every walk passes a loop head a second time and leaves through the branches not yet on the path, so
+// that what a loop carries out after an iteration is seen (XLOOPEXITS=0 switches it off, for comparison).
+var forceLoopExits = os.Getenv("XLOOPEXITS") != "0"
 
 // phiFeasible prunes edges whose condition is decided once phis are resolved
 // along the path: `x != nil` with x a phi of nil / MakeInterface, and
